@@ -3,7 +3,7 @@ import json, os, random, concurrent.futures as cf
 from vcommon import *
 
 
-def run_trace_spec(module, recs, tag, nproc=1, timeout=1800, extra_blobs=None, env=None):
+def run_trace_spec(module, recs, tag, nproc=1, timeout=1800, extra_blobs=None, env=None, consumed=False):
     """Write recs (list of dicts with 'case') to NDJSON files, validate each with TLC, collect flags.
     Returns (flags, tlc_results) where flags = list of (kind, case, what-text)."""
     os.makedirs(WORK, exist_ok=True)
@@ -40,7 +40,12 @@ def run_trace_spec(module, recs, tag, nproc=1, timeout=1800, extra_blobs=None, e
         for r, tp, dp, n in ex.map(one, jobs):
             if r.error or r.violated:
                 raise ToolError("trace validation %s failed to run: %s" % (module, r.error or r.violated))
-            if r.distinct != n + 1:
+            if consumed:
+                # trace specifications that take several steps per record announce the last record they consumed
+                done = [p for p in r.prints if isinstance(p, str) and p.startswith("CONSUMED ")]
+                if not done or int(done[-1].split()[1]) != n:
+                    raise ToolError("trace validation %s did not consume all %d records\n%s" % (module, n, "\n".join(r.lines[-25:])))
+            elif r.distinct != n + 1:
                 raise ToolError("trace validation %s consumed %d of %d records\n%s" % (module, r.distinct - 1, n, "\n".join(r.lines[-10:])))
             nflag = 0
             for ln in r.prints:
